@@ -449,7 +449,8 @@ fn made_from_text(kind: Kind) -> bool {
 pub fn make(spec: &FileSpec) -> io::Result<Made> {
     // on a fresh thread: the bytes of a generated file must not depend on how many hash maps this
     // worker created before (see kernel::fresh_thread)
-    let made = crate::kernel::fresh_thread(|| make_inner(spec))?;
+    // (only CRAM writing iterates hash maps)
+    let made = crate::kernel::fresh_thread_if(matches!(spec.kind, Kind::Cram | Kind::Crai), || make_inner(spec))?;
     if let Model::Cram { model, .. } = &made.model {
         set_cram_refs(&model.refs);
     }
